@@ -1224,6 +1224,79 @@ def ptr1(units, R, fn_name='get_item_from_pointer'):
     R.floor('PTR1', 'returning paths of the pointer resolver', n, 1)
 
 
+# ---- ESC4: a decoded name is not read as a token again --------------------------------------------------------------------------
+
+def esc4(units, R, floor=1):
+    """Once decode_pointer_inplace has turned the last token of a path into the member name it spells, that text is a name: it is
+    looked up with the key functions of cJSON.c.  Handing it to something that reads *tokens* - compare_pointers' second argument,
+    the resolver, or a helper whose parameter ends up there - decodes it a second time: a '~' in the name is taken for the start of
+    an escape and a '/' for the end of the token, so the wrong member (or none) is found."""
+    u = units['cJSON_Utils.c']
+    # parameters read as tokens
+    token_params = {}
+    for name, idx in (('compare_pointers', 1), ('get_item_from_pointer', 1)):
+        if name in u.functions:
+            token_params.setdefault(name, set()).add(idx)
+    if not token_params:
+        raise AnalysisBroken('ESC4: no reader of pointer tokens found in cJSON_Utils.c')
+    changed = True
+    while changed:
+        changed = False
+        for fn in u.function_list:
+            if fn.body is None:
+                continue
+            pidx = {p_['d']: i for i, p_ in enumerate(fn.params)}
+            for c in fn.calls():
+                cn = callee_name(c)
+                for i in token_params.get(cn, ()):
+                    if i >= len(c['args']):
+                        continue
+                    a = strip_casts(c['args'][i])
+                    while a.get('k') == 'bin' and a['op'] in ('+', '-'):
+                        a = strip_casts(a['l'])
+                    if a.get('k') == 'ref' and a.get('d') in pidx and pidx[a['d']] not in token_params.get(fn.name, set()):
+                        token_params.setdefault(fn.name, set()).add(pidx[a['d']])
+                        changed = True
+    n = 0
+    for fn in u.function_list:
+        if fn.body is None:
+            continue
+        decs = [c for c in fn.calls() if callee_name(c) == 'decode_pointer_inplace' and c.get('args')]
+        if not decs:
+            continue
+        cfg = fn.cfg()
+        for dc in decs:
+            v = strip_casts(dc['args'][0])
+            if v.get('k') != 'ref':
+                continue
+            n += 1
+            dn = cfg.node_of_expr(dc['id'])
+            after = cfg.reachable(dn.id) if dn is not None else set()
+            # the decoded text is in v until v is pointed elsewhere
+            bad = None
+            for c in fn.calls():
+                cn = callee_name(c)
+                for i in token_params.get(cn, ()):
+                    if i >= len(c['args']):
+                        continue
+                    a = strip_casts(c['args'][i])
+                    while a.get('k') == 'bin' and a['op'] in ('+', '-'):
+                        a = strip_casts(a['l'])
+                    if a.get('k') == 'ref' and a.get('d') == v['d']:
+                        cnode = cfg.node_of_expr(c['id'])
+                        if cnode is not None and cnode.id in after:
+                            # re-pointed in between on every path?
+                            redefs = {m.id for m in cfg.nodes for ev in node_effects(m)
+                                      if ev.kind == 'store' and is_ref(ev.lhs) and strip_casts(ev.lhs)['d'] == v['d'] and ev.node['op'] == '='}
+                            if cnode.id in cfg.reachable(dn.id, stop=redefs):
+                                bad = bad or (c, cn)
+            R.ob('ESC4', fn, bad[0] if bad else dc, 'the name decoded into %s is not read as a token again' % v['n'], bad is None,
+                 'looked up as a name only' if bad is None else
+                 '%s reads its argument as a pointer token (it ends up as the second argument of compare_pointers), but %s holds the '
+                 'decoded name here: a \'~\' or \'/\' in the name is decoded a second time' % (bad[1], v['n']), key='decoded:%s' % v['n'])
+    R.floor('ESC4', 'tokens decoded in place', n, floor)
+
+
 # ---- DIG1: digit-counting loops agree with their radix ----------------------------------------------------------------------
 
 def dig1(units, R, unit_names=('cJSON.c', 'cJSON_Utils.c')):
